@@ -37,6 +37,17 @@ UNITS = {
                              for f in ['put', 'capturing_put', 'replace_or_create_node', 'get', 'get_', 'get_mut', 'get_mut_', 'peek', 'peek_', 'peek_mut', 'peek_mut_',
                                        'contains', 'remove', 'attach', 'detach', 'len', 'cap', 'is_empty']],
                   assumptions=SHIM_ASSUMPTIONS),
+    'K-ITER': dict(engine='kani', files=['harness_raw_iter.rs'], support_files=['harness_raw.rs'],
+                   module={'harness_raw_iter.rs': 'lru::raw::verif_hooks::harness_iter'},
+                   n=dict(quick=2, thorough=3), bound='list length <= {N}+1, schedule of next/next_back of length {N}+3 (= len()+2 at full length)',
+                   timeout=dict(quick=900, thorough=3600),
+                   functions=[dict(function=f, file='src/lru/raw.rs', line=0, props=['C14', 'C13', 'C02'])
+                              for f in ['MRUIter::{next,next_back,size_hint,count,clone}', 'LRUIter::{next,next_back,size_hint,count,clone}',
+                                        'MRUIterMut::{next,next_back,size_hint,count}', 'LRUIterMut::{next,next_back,size_hint,count}',
+                                        'KeysMRUIter/KeysLRUIter/ValuesMRUIter/ValuesLRUIter/ValuesMRUIterMut/ValuesLRUIterMut::{next,next_back,size_hint,count,clone}',
+                                        'RawLRU::{iter,iter_lru,iter_mut,iter_lru_mut,keys,keys_lru,values,values_lru,values_mut,values_lru_mut}',
+                                        'IntoIterator for &RawLRU / &mut RawLRU']],
+                   assumptions=SHIM_ASSUMPTIONS),
 }
 
 def all_units(P):
